@@ -173,6 +173,9 @@ macro_rules! serde_float_mod {
                     "standard_normal" => check!(acc, "StandardNormal", StandardNormal, StandardNormal, |d, r| hf64(Distribution::<F>::sample(d, r) as f64), seed),
                     "exp1" => check!(acc, "Exp1", Exp1, Exp1, |d, r| hf64(Distribution::<F>::sample(d, r) as f64), seed),
                     "normal" => sc!("Normal", Normal<F>, Normal::new(a(0), a(1))),
+                    "normal_cv" => sc!("Normal", Normal<F>, Normal::from_mean_cv(a(0), a(1))),
+                    "log_normal_cv" => sc!("LogNormal", LogNormal<F>, LogNormal::from_mean_cv(a(0), a(1))),
+                    "pert_mean" => sc!("Pert", Pert<F>, Pert::new(a(0), a(1)).with_shape(a(3)).with_mean(a(2))),
                     "log_normal" => sc!("LogNormal", LogNormal<F>, LogNormal::new(a(0), a(1))),
                     "exp" => sc!("Exp", Exp<F>, Exp::new(a(0))),
                     "gamma" => sc!("Gamma", Gamma<F>, Gamma::new(a(0), a(1))),
